@@ -338,7 +338,11 @@ def sameVals (tol : Bool) (x y : List Rat) : Bool :=
 
 def uptCmp (first second : Prog) (pt : List Rat) : Option Bool :=
   match evalU first.1 first.2 pt, evalU second.1 second.2 pt with
-  | some v1, some v2 => some (sameVals (hasThick first || hasThick second) v1.d v2.d)
+  | some v1, some v2 =>
+    let thick := hasThick first || hasThick second
+    -- with thick constants represented by their midpoints a difference refutes nothing (a legitimate folding of
+    -- `min(2.125,[-3.6,27.4])` into `[-3.6,2.125]` moves the midpoint): undecided
+    if sameVals thick v1.d v2.d then some true else if thick then none else some false
   | _, _ => none
 
 /-- all sample points: `some false` as soon as one differs; `some true` if at least one was
@@ -413,7 +417,9 @@ def flatPtCmp2 (as bs : List Prog) (pt : List Rat) : Option Bool :=
 
 def flatUptCmp (as bs : List Prog) (pt : List Rat) : Option Bool :=
   match flatAt (fun p => evalU p.1 p.2 pt) as, flatAt (fun p => evalU p.1 p.2 pt) bs with
-  | some x, some y => some (sameVals (as.any hasThick || bs.any hasThick) x y)
+  | some x, some y =>
+    let thick := as.any hasThick || bs.any hasThick
+    if sameVals thick x y then some true else if thick then none else some false      -- (as `uptCmp`)
   | _, _ => none
 
 def flatSize (ps : List Prog) : Option Nat :=
